@@ -159,6 +159,6 @@ def install():
 def priv(obj, cls, name):
     """Read a name-mangled private attribute; a missing one is a harness error."""
     try:
-        return getattr(obj, '_%s__%s' % (cls, name))
+        return getattr(obj, '_%s__%s' % (cls.lstrip('_'), name))
     except AttributeError:
         raise HarnessError('private attribute %s.__%s not found (harness out of date)' % (cls, name))
